@@ -1,6 +1,7 @@
 package lexer
 
 import (
+	"errors"
 	"fmt"
 	"log"
 	"strings"
@@ -62,10 +63,16 @@ func whiteSpace(c rune) str {
 }
 
 func comment(c rune) str {
-	if c == '\n' {
+	switch c {
+	case '\n':
 		return str{next: eol, doEmit: false, doAdv: true, typ: token.Invalid}
+
+	case EOF: // comment on the last line, without line break
+		return str{next: eof, doEmit: false, doAdv: true, typ: token.Invalid}
+
+	default:
+		return str{next: comment}
 	}
-	return str{next: comment}
 }
 
 func intLit(c rune) str {
@@ -109,12 +116,18 @@ func stringLit(c rune) str {
 	case c == '\\':
 		return str{next: escapeStringLit}
 
+	case c == EOF:
+		return str{err: errors.New("Lexer: unterminated string literal")}
+
 	default:
 		return str{next: stringLit}
 	}
 }
 
-func escapeStringLit(_ rune) str {
+func escapeStringLit(c rune) str {
+	if c == EOF {
+		return str{err: errors.New("Lexer: unterminated string literal")}
+	}
 	return str{next: stringLit}
 }
 
